@@ -304,13 +304,7 @@ func checkC02(c *core.Ctx, l *core.Ledger) {
 		if fw == nil {
 			return false
 		}
-		fd := c.Decl(fw)
-		for _, sw := range core.Switches(c.DeclPkg(fw).TypesInfo, fd.Body) {
-			if sw.HasCaseVal(k.Val()) {
-				return true
-			}
-		}
-		return false
+		return fixedWidthOf(c, k) > 0
 	}
 	wireSwitchExhaustive(c, l, "EXH", "protocol/binary", "Writer.WriteValue", nil, true)
 	wireSwitchExhaustive(c, l, "EXH", "protocol/binary", "reader.ReadValue", nil, true)
@@ -1113,36 +1107,10 @@ func checkFixedWidth(c *core.Ctx, l *core.Ledger, rule string) {
 		return
 	}
 	fd := c.Decl(fobj)
-	info := c.DeclPkg(fobj).TypesInfo
-	got := map[int64]int64{}
-	defaultVal := int64(1)
-	sws := core.Switches(info, fd.Body)
-	if len(sws) != 1 || sws[0].IsType {
-		l.Unk(rule, "shape", c.Rel(fd.Pos()), "fixedWidth is not a single value switch: table cannot be extracted")
+	got, defaultVal, why := fixedWidthTable(c)
+	if why != "" {
+		l.Unk(rule, "shape", c.Rel(fd.Pos()), why)
 		return
-	}
-	for _, cc := range sws[0].Clauses {
-		var ret int64 = -999
-		if len(cc.Body) == 1 {
-			if rs, ok := cc.Body[0].(*ast.ReturnStmt); ok && len(rs.Results) == 1 {
-				if tv, ok := info.Types[rs.Results[0]]; ok && tv.Value != nil {
-					ret, _ = constant.Int64Val(constant.ToInt(tv.Value))
-				}
-			}
-		}
-		if ret == -999 {
-			l.Unk(rule, "clause", c.Rel(cc.Pos()), "case does not return a constant")
-			return
-		}
-		if cc.List == nil {
-			defaultVal = ret
-		}
-		for _, e := range cc.List {
-			if tv, ok := info.Types[e]; ok && tv.Value != nil {
-				k, _ := constant.Int64Val(tv.Value)
-				got[k] = ret
-			}
-		}
 	}
 	for code := range wireTypeCodes {
 		k := wireTypeCodes[code]
@@ -1159,4 +1127,182 @@ func checkFixedWidth(c *core.Ctx, l *core.Ledger, rule string) {
 		}
 	}
 	l.Floor(rule, 11)
+}
+
+// fixedWidthTable extracts the function protocol/binary.fixedWidth as a finite
+// table: either a single value switch whose clauses return constants, or a
+// lookup `return T[t]` in a package-level array/map initialised by a literal
+// with constant keys and values (optionally behind guards that return a
+// constant). Anything else is reported as not extractable.
+func fixedWidthTable(c *core.Ctx) (got map[int64]int64, def int64, why string) {
+	fobj := c.LookupFunc("protocol/binary", "fixedWidth")
+	if fobj == nil {
+		return nil, 0, "fixedWidth not found"
+	}
+	fd := c.Decl(fobj)
+	pkg := c.DeclPkg(fobj)
+	info := pkg.TypesInfo
+	got = map[int64]int64{}
+	def = 1
+	constOf := func(e ast.Expr) (int64, bool) {
+		if tv, ok := info.Types[e]; ok && tv.Value != nil {
+			v, ok := constant.Int64Val(constant.ToInt(tv.Value))
+			return v, ok
+		}
+		return 0, false
+	}
+	sws := core.Switches(info, fd.Body)
+	if len(sws) == 1 && !sws[0].IsType {
+		for _, cc := range sws[0].Clauses {
+			var ret int64
+			okRet := false
+			if len(cc.Body) == 1 {
+				if rs, ok := cc.Body[0].(*ast.ReturnStmt); ok && len(rs.Results) == 1 {
+					ret, okRet = constOf(rs.Results[0])
+				}
+			}
+			if !okRet {
+				return nil, 0, "a case of fixedWidth does not return a constant"
+			}
+			if cc.List == nil {
+				def = ret
+			}
+			for _, e := range cc.List {
+				if k, ok := constOf(e); ok {
+					got[k] = ret
+				}
+			}
+		}
+		return got, def, ""
+	}
+	if len(sws) == 0 {
+		// table form: the last statement returns T[param]
+		stmts := fd.Body.List
+		if len(stmts) == 0 {
+			return nil, 0, "fixedWidth has no body"
+		}
+		rs, ok := stmts[len(stmts)-1].(*ast.ReturnStmt)
+		if ok && len(rs.Results) == 1 {
+			if ie, ok := rs.Results[0].(*ast.IndexExpr); ok {
+				if id, ok := ie.X.(*ast.Ident); ok {
+					if v, ok := info.Uses[id].(*types.Var); ok && v.Parent() == pkg.Types.Scope() {
+						// earlier statements may only be guards returning a constant
+						for _, st := range stmts[:len(stmts)-1] {
+							ifs, ok := st.(*ast.IfStmt)
+							if !ok || ifs.Else != nil || len(ifs.Body.List) != 1 {
+								return nil, 0, "fixedWidth: statement before the table lookup is not a guard"
+							}
+							r2, ok := ifs.Body.List[0].(*ast.ReturnStmt)
+							if !ok || len(r2.Results) != 1 {
+								return nil, 0, "fixedWidth: guard does not return"
+							}
+							d, ok := constOf(r2.Results[0])
+							if !ok {
+								return nil, 0, "fixedWidth: guard does not return a constant"
+							}
+							def = d
+						}
+						// the table's literal
+						for _, f := range pkg.Syntax {
+							for _, dcl := range f.Decls {
+								gd, ok := dcl.(*ast.GenDecl)
+								if !ok {
+									continue
+								}
+								for _, sp := range gd.Specs {
+									vs, ok := sp.(*ast.ValueSpec)
+									if !ok {
+										continue
+									}
+									for i, nm := range vs.Names {
+										if info.Defs[nm] != v || i >= len(vs.Values) {
+											continue
+										}
+										cl, ok := vs.Values[i].(*ast.CompositeLit)
+										if !ok {
+											return nil, 0, "fixedWidth's table is not initialised by a literal"
+										}
+										if _, isArr := v.Type().Underlying().(*types.Array); isArr {
+											if len(stmts) == 1 {
+												def = 0 // unlisted entries of an array are zero; out-of-range indexes are the PANIC rule's business
+											}
+										}
+										next := int64(0)
+										for _, el := range cl.Elts {
+											if kv, ok := el.(*ast.KeyValueExpr); ok {
+												k, ok1 := constOf(kv.Key)
+												val, ok2 := constOf(kv.Value)
+												if !ok1 || !ok2 {
+													return nil, 0, "fixedWidth's table has a non-constant entry"
+												}
+												got[k] = val
+												next = k + 1
+											} else {
+												val, ok2 := constOf(el)
+												if !ok2 {
+													return nil, 0, "fixedWidth's table has a non-constant entry"
+												}
+												got[next] = val
+												next++
+											}
+										}
+										// the table must not be written elsewhere
+										return got, def, tableWrittenElsewhere(c, v)
+									}
+								}
+							}
+						}
+					}
+				}
+			}
+		}
+	}
+	return nil, 0, "fixedWidth is neither a single value switch nor a lookup in a literal table: table cannot be extracted"
+}
+
+// tableWrittenElsewhere reports a store into the package-level variable v
+// outside its initialiser.
+func tableWrittenElsewhere(c *core.Ctx, v *types.Var) string {
+	for _, f := range c.AllFuncs(strings.TrimPrefix(strings.TrimPrefix(v.Pkg().Path(), core.ModPath), "/")) {
+		bad := ""
+		core.Instrs(f, func(in ssa.Instruction) {
+			st, ok := in.(*ssa.Store)
+			if !ok {
+				return
+			}
+			addr := st.Addr
+			for {
+				switch x := addr.(type) {
+				case *ssa.IndexAddr:
+					addr = x.X
+					continue
+				case *ssa.FieldAddr:
+					addr = x.X
+					continue
+				}
+				break
+			}
+			if g, ok := addr.(*ssa.Global); ok && g.Object() == v {
+				bad = "fixedWidth's table is written at " + c.Rel(in.Pos())
+			}
+		})
+		if bad != "" {
+			return bad
+		}
+	}
+	return ""
+}
+
+// fixedWidthOf: the value fixedWidth returns for a wire type constant (0 when
+// the table cannot be extracted).
+func fixedWidthOf(c *core.Ctx, k *types.Const) int64 {
+	got, def, why := fixedWidthTable(c)
+	if why != "" {
+		return 0
+	}
+	kv, _ := constant.Int64Val(k.Val())
+	if v, ok := got[kv]; ok {
+		return v
+	}
+	return def
 }
